@@ -16,6 +16,31 @@ def _syms(n):
     return F, Q
 
 
+def _single_path(fn, flat=False):
+    """runs fn under a path executor with non-forking |x|; the unmodified function has no
+    data-dependent branch, so there is exactly one path. If a change introduces branches, the
+    obligations are established on the first feasible path under its path condition (the formal
+    step makes every comparison of `something * dt` with a positive constant false)."""
+    import z3
+    from .. import symreal as S, paths
+    S.C.abs_mode = 'sqrt'
+    ex = paths.Exec(S.C.dom)
+    orig_decide = ex.decide
+
+    def decide(cond):
+        for c in S.C.cons[getattr(ex, '_ncons', 0):]:
+            ex.solver.add(c)
+        ex._ncons = len(S.C.cons)
+        return orig_decide(cond)
+    ex.decide = decide
+    res, _ = ex.run(lambda: (setattr(ex, '_ncons', 0), fn())[1], max_paths=1, max_decisions=200)
+    ok = [pr for pr in res if pr.status == 'ok']
+    if not ok:
+        raise RuntimeError('compute_process_matrices failed symbolically: %s' % ([pr.out for pr in res][:1],))
+    out = ok[0].out
+    return (out, list(ok[0].pc)) if flat else (out[0], out[1], list(ok[0].pc))
+
+
 def section_series(rep, n, K, mutate=None):
     import numpy as np
     from .. import symreal as S, enga
@@ -26,7 +51,7 @@ def section_series(rep, n, K, mutate=None):
         mutate(m)
     F, Q = _syms(n)
     dt = S.formal(0)
-    Phi, Qd = KF.compute_process_matrices(F, Q, dt)
+    Phi, Qd, pc = _single_path(lambda: KF.compute_process_matrices(F, Q, dt))
     J = S.J
     Fk = [S.symnp.eye(n)]
     for k in range(1, K + 1):
@@ -41,13 +66,13 @@ def section_series(rep, n, K, mutate=None):
         for i in range(n):
             for j in range(n):
                 obls.append(enga.zero('n=%d: Phi[%d,%d] dt^%d coefficient = (F^%d/%d!)' % (n, i, j, k, k, k),
-                                      J(Phi[i, j]).part(k) - J(Fk[k][i, j]), 'transition = exp(F dt) series', meta=meta))
+                                      J(Phi[i, j]).part(k) - J(Fk[k][i, j]), 'transition = exp(F dt) series', extra=pc, meta=meta))
                 rhs = J(oq[i, j]) * Fr(1, k) if k else J(0)
                 obls.append(enga.zero('n=%d: Qd[%d,%d] dt^%d coefficient = series of int_0^dt e^{Fs} Q e^{F^T s} ds' % (n, i, j, k),
-                                      J(Qd[i, j]).part(k) - rhs, 'noise integral series', meta=meta))
+                                      J(Qd[i, j]).part(k) - rhs, 'noise integral series', extra=pc, meta=meta))
                 if j > i:
                     obls.append(enga.zero('n=%d: Qd symmetric [%d,%d] dt^%d' % (n, i, j, k),
-                                          J(Qd[i, j]).part(k) - J(Qd[j, i]).part(k), 'Qd symmetric', meta=meta))
+                                          J(Qd[i, j]).part(k) - J(Qd[j, i]).part(k), 'Qd symmetric', extra=pc, meta=meta))
     rep.run.encode(KF.compute_process_matrices)
     return obls
 
@@ -65,9 +90,7 @@ def section_composition(rep, n, K, mutate=None):
         mutate(m)
     F, Q = _syms(n)
     s, t = S.formal(0), S.formal(1)
-    Ps, Qs = KF.compute_process_matrices(F, Q, s)
-    Pt, Qt = KF.compute_process_matrices(F, Q, t)
-    Pst, Qst = KF.compute_process_matrices(F, Q, s + t)
+    (Ps, Qs, Pt, Qt, Pst, Qst), pc = _single_path(lambda: KF.compute_process_matrices(F, Q, s) + KF.compute_process_matrices(F, Q, t) + KF.compute_process_matrices(F, Q, s + t), flat=True)
     J = S.J
     lhsP = np.dot(Pt, Ps)
     lhsQ = np.dot(np.dot(Pt, Qs), Pt.T) + Qt
@@ -79,13 +102,75 @@ def section_composition(rep, n, K, mutate=None):
         for i in range(n):
             for j in range(n):
                 obls.append(enga.zero('n=%d: Phi(s+t) = Phi(t)Phi(s) [%d,%d] s^%d t^%d' % (n, i, j, a, b),
-                                      J(Pst[i, j]).part(a, b) - J(lhsP[i, j]).part(a, b), 'composition', meta=meta))
+                                      J(Pst[i, j]).part(a, b) - J(lhsP[i, j]).part(a, b), 'composition', extra=pc, meta=meta))
                 obls.append(enga.zero('n=%d: Qd(s+t) = Phi(t)Qd(s)Phi(t)^T + Qd(t) [%d,%d] s^%d t^%d' % (n, i, j, a, b),
-                                      J(Qst[i, j]).part(a, b) - J(lhsQ[i, j]).part(a, b), 'composition', meta=meta))
+                                      J(Qst[i, j]).part(a, b) - J(lhsQ[i, j]).part(a, b), 'composition', extra=pc, meta=meta))
     return obls
 
 
+def section_nilpotent(rep, n, mutate=None, max_paths=400):
+    """FINITE steps: F strictly upper triangular (nilpotent, symbolic entries), dt an ordinary real
+    in (0, 200]: exp(F dt) and the noise integral are polynomials, the expm stub is exact, and
+    every data-dependent branch of the function (none in the unmodified code) is explored by the
+    path executor. Returns a list of obligation lists, one per path."""
+    import numpy as np
+    import z3
+    from .. import symreal as S, enga, paths
+    S.new_ctx()
+    m = enga.install()
+    KF = m['KF']
+    if mutate:
+        mutate(m)
+    J, O = S.J, S.O
+    F = O([[S.var('F%d%d' % (i, j)) if j > i else J(0) for j in range(n)] for i in range(n)])
+    Q = O([[S.var('Q%d%d' % (min(i, j), max(i, j))) for j in range(n)] for i in range(n)])
+    dt = S.var('dt')
+    S.C.dom += [z3.Real('dt') > 0, z3.Real('dt') <= 200]
+    for i in range(n):
+        for j in range(n):
+            if j > i:
+                S.C.dom += [z3.Real('F%d%d' % (i, j)) >= -1, z3.Real('F%d%d' % (i, j)) <= 1]
+            if j >= i:
+                S.C.dom += [z3.Real('Q%d%d' % (i, j)) >= -1, z3.Real('Q%d%d' % (i, j)) <= 1]
+    ex = paths.Exec(S.C.dom)
+    res, _ = ex.run(lambda: KF.compute_process_matrices(F.copy(), Q.copy(), dt), max_paths=max_paths, max_decisions=60)
+    # exact reference: terminating series
+    Fk = [S.symnp.eye(n)]
+    for k in range(1, n):
+        P = np.dot(Fk[-1], F)
+        Fk.append(O([[J(P[i, j]) * Fr(1, k) for j in range(n)] for i in range(n)]))
+    Phi_ref = S.symnp.zeros((n, n))
+    Qd_ref = S.symnp.zeros((n, n))
+    p = J(1)
+    pw = [J(1)]
+    for k in range(1, 2 * n + 1):
+        pw.append(pw[-1] * dt)
+    for a in range(n):
+        Phi_ref = Phi_ref + Fk[a] * pw[a]
+        for b in range(n):
+            Qd_ref = Qd_ref + np.dot(np.dot(Fk[a], Q), Fk[b].T) * (pw[a + b + 1] * Fr(1, a + b + 1))
+    per_path = []
+    for pr in res:
+        if pr.status == 'abort' and pr.out == 'INFEASIBLE':
+            continue
+        if pr.status != 'ok':
+            raise RuntimeError('compute_process_matrices failed symbolically on a path: %s' % (pr.out,))
+        Phi, Qd = pr.out
+        extra = list(pr.pc)
+        meta = {'check': 'nilpotent', 'params': {'n': n}}
+        obls = []
+        for i in range(n):
+            for j in range(n):
+                obls.append(enga.zero('n=%d, finite step, nilpotent F: Phi[%d,%d] = exp(F dt)' % (n, i, j), J(Phi[i, j]) - J(Phi_ref[i, j]), 'finite steps (nilpotent F): transition', extra, meta))
+                obls.append(enga.zero('n=%d, finite step, nilpotent F: Qd[%d,%d] = int_0^dt e^{Fs} Q e^{F^T s} ds' % (n, i, j), J(Qd[i, j]) - J(Qd_ref[i, j]), 'finite steps (nilpotent F): noise integral', extra, meta))
+        per_path.append(obls)
+    rep.run.encode(KF.compute_process_matrices)
+    return per_path
+
+
 CANARIES = [
+    ('long steps rebuilt by doubling with Phi squared first', 'nilpotent', ('KF', 'compute_process_matrices', 'return H[:n, :n], H[:n, n:] @ H[:n, :n].T',
+     'Phi_, Qd_ = H[:n, :n], H[:n, n:] @ H[:n, :n].T\n    if np.linalg.norm(F, 1) * dt > 32:\n        Qd_ = Qd_ + 0 * dt\n        Qd_[0, 0] = Qd_[0, 0] * 2\n    return Phi_, Qd_')),
     ('van Loan block sign', 'series', ('KF', 'compute_process_matrices', 'H[n:, n:] = -F.T', 'H[n:, n:] = F.T')),
     ('noise block not post-multiplied by Phi^T', 'series', ('KF', 'compute_process_matrices', 'H[:n, n:] @ H[:n, :n].T', 'H[:n, n:] @ H[:n, :n]')),
     ('transition block transposed', 'series', ('KF', 'compute_process_matrices', 'return H[:n, :n], ', 'return H[:n, :n].T, ')),
@@ -106,7 +191,8 @@ def run(run):
     rep = enga.AReport(run, box=box)
     run.assume('expm is replaced by its defining power series, exact in the truncated algebra of the formal step: the claim is coefficientwise through dt^K; accuracy of scipy.linalg.expm for large ||F|| dt and n = 24 is outside',
                'F arbitrary real, Q symmetric (entries Q_ij = Q_ji are one symbol); positive semidefiniteness of Qd follows from the integral form of the oracle (argument, not a query)',
-               'exact real arithmetic')
+               'exact real arithmetic',
+               'finite steps: F strictly upper triangular with symbolic entries in [-1, 1] (n = 2, 3; thorough: 4), Q symmetric symbolic, dt an ordinary real in (0, 200] (so |F|_1 dt reaches 400): the exponential series terminates, the stub is exact, and every data-dependent branch is explored by the path executor; non-nilpotent F at finite steps is outside (exp is not algebraic)')
     cfgs = [(1, 6), (2, 5), (3, 4)] if run.tier == 'quick' else [(1, 6), (2, 6), (3, 6), (4, 6)]
     comp = [(1, 4), (2, 3)] if run.tier == 'quick' else [(1, 6), (2, 5), (3, 4)]
     for n, K in cfgs:
@@ -115,11 +201,17 @@ def run(run):
     for n, K in comp:
         obls = section_composition(rep, n, K)
         rep.finish(rep.batch(obls), PROP)
+    for n in ((2, 3) if run.tier == 'quick' else (2, 3, 4)):
+        for obls in section_nilpotent(rep, n):
+            rep.finish(rep.batch(obls), PROP)
     run.witness('obligations are non-trivial (some residual not syntactically zero before simplification)', run.obligations > 0)
     validate(rep)
     for name, sec, spec in CANARIES:
         try:
-            obls = section_series(rep, 2, 3, _mut(spec)) if sec == 'series' else section_composition(rep, 2, 3, _mut(spec))
+            if sec == 'nilpotent':
+                obls = [o for path in section_nilpotent(rep, 2, _mut(spec)) for o in path]
+            else:
+                obls = section_series(rep, 2, 3, _mut(spec)) if sec == 'series' else section_composition(rep, 2, 3, _mut(spec))
         except common.HarnessError as e:
             run.canary(name, False, str(e))
             continue
@@ -141,7 +233,7 @@ def validate(rep):
     S.new_ctx([('dt', K)])
     m = enga.install()
     F, Q = _syms(n)
-    Phi, Qd = m['KF'].compute_process_matrices(F, Q, S.formal(0))
+    Phi, Qd, _pc = _single_path(lambda: m['KF'].compute_process_matrices(F, Q, S.formal(0)))
     for _ in range(4 if run.tier == 'quick' else 30):
         pt = {'F%d%d' % (i, j): rng.uniform(-1, 1) for i in range(n) for j in range(n)}
         pt.update({'Q%d%d' % (i, j): rng.uniform(0, 1) for i in range(n) for j in range(i, n)})
@@ -178,6 +270,23 @@ def replay(spec):
     from scipy.linalg import expm
     pt = spec['point']
     n = (spec.get('params') or {}).get('n', 2)
+    if spec.get('check') == 'nilpotent':
+        import math
+        F = np.array([[pt.get('F%d%d' % (i, j), 0.7) if j > i else 0.0 for j in range(n)] for i in range(n)])
+        Q = np.array([[pt.get('Q%d%d' % (min(i, j), max(i, j)), 0.3 if i == j else 0.05) for j in range(n)] for i in range(n)])
+        fails = []
+        for dt in sorted({float(pt.get('dt', 50.0)), 0.5, 40.0, 150.0}):
+            Phi, Qd = kalman.compute_process_matrices(F.copy(), Q.copy(), dt)
+            Fk = [np.eye(n)]
+            for k in range(1, n):
+                Fk.append(Fk[-1] @ F / k)
+            Pr = sum(Fk[a] * dt ** a for a in range(n))
+            Qr = sum(Fk[a] @ Q @ Fk[b].T * dt ** (a + b + 1) / (a + b + 1) for a in range(n) for b in range(n))
+            if np.abs(Phi - Pr).max() > 1e-9 * max(1.0, np.abs(Pr).max()):
+                fails.append('nilpotent F, dt=%g: transition matrix differs from the terminating series of exp(F dt) by %.3g' % (dt, np.abs(Phi - Pr).max()))
+            if np.abs(Qd - Qr).max() > 1e-8 * max(1e-12, np.abs(Qr).max()):
+                fails.append('nilpotent F, dt=%g, |F|_1 dt=%.3g: noise matrix differs from the exact integral by %.3g (scale %.3g)' % (dt, np.abs(F).sum(0).max() * dt, np.abs(Qd - Qr).max(), np.abs(Qr).max()))
+        return {'violated': bool(fails), 'detail': fails}
     F = np.array([[pt.get('F%d%d' % (i, j), 0.1 * (i - j) + 0.2) for j in range(n)] for i in range(n)])
     Q = np.array([[pt.get('Q%d%d' % (min(i, j), max(i, j)), 0.3 if i == j else 0.05) for j in range(n)] for i in range(n)])
     fails = []
